@@ -57,14 +57,12 @@ def conditioned(b, kind, method):
     var = (R ** 2).sum(axis=0)
     if np.any(var < 1 / 4):
         return False
-    if method == 'shrinkage_eye':
+    if method == 'shrinkage_eye' and b['p'] >= 2:
         s = R.T @ R / len(R)
         m = np.trace(s) / s.shape[0]
         if ((s - m * np.eye(s.shape[0])) ** 2).sum() < 1 / 16:
             return False
-    if method == 'shrinkage_diag':
-        if b['p'] < 2:
-            return False
+    if method == 'shrinkage_diag' and b['p'] >= 2:
         s = R.T @ R
         off = ~np.eye(b['p'], dtype=bool)
         if (s[off] ** 2).sum() < 1 / 4:
@@ -246,7 +244,10 @@ def oracle(c, o):
             return 'diag estimate is not the diagonal of the residual covariance'
     else:
         # convex combination of S with its target, intensity in [0,1]
-        if m == 'shrinkage_diag':
+        if p == 1:
+            if not np.allclose(cov, S, rtol=1e-9):
+                return 'single-channel shrinkage estimate is not the variance'
+        elif m == 'shrinkage_diag':
             off = ~np.eye(p, dtype=bool)
             ratio = cov[off] / S[off]
             ok = np.allclose(np.diag(cov), np.diag(S), rtol=1e-9) and \
